@@ -22,7 +22,9 @@ THEOREMS = ['C12_expand_shorthand', 'C12_interpolates_evenly_spaced',
             'C12_log_interpolates_constant_ratio',
             'C12_importance_cards_single', 'C12_importance_cards_jump_refused',
             'C12_jumped_cell_kept',
-            'C12_importance_cards_max', 'C12_importance_cards_uneven_refused',
+            'C12_importance_cards_max', 'C12_importance_cards_dedup',
+            'C12_dictionary_last_assignment',
+            'C12_importance_cards_uneven_refused',
             'C12_keywords_importance', 'C12_particle_dictionary',
             'C12_option_tokens_words', 'C12_importance_of_cell',
             'C12_importance_missing_refused', 'C12_skipped_iff_zero',
@@ -77,8 +79,6 @@ ASSUMPTIONS = [
     'no LIKE cycle (the code does not terminate); no jump (nJ) entries in IMP '
     'cards for the zero-iff theorems (the behaviour with jumps is proved '
     'separately: C12_jumped_cell_kept, C12_importance_cards_jump_refused)',
-    'IMP data cards have pairwise distinct names (C12_importance_cards_max); '
-    'a repeated name replaces the earlier card (modelled and tied)',
 ]
 HEADER = g.HEADER
 
@@ -733,6 +733,14 @@ CORPUS = [
      ['imp:n 1 0 0 1', 'imp:p 0 0 1 1'], [2]),
     ('three-particles-one-live', [(1, ''), (2, ''), (3, '')],
      ['imp:n 0 0 1', 'imp:p 0 0 0', 'imp:e 0 1 0'], [1]),
+    # three and four IMP cards: the only non-zero entry of a cell sits on a
+    # card that is neither the first nor the last one / on the smaller card
+    ('three-particles-middle-card', [(1, ''), (2, ''), (3, '')],
+     ['imp:n 1 0 0', 'imp:p 1 1 0', 'imp:e 1 0 0'], [3]),
+    ('four-particles-inner-cards', [(1, ''), (2, ''), (3, ''), (4, '')],
+     ['imp:n 0 0 0 1', 'imp:p 1 0 0 0', 'imp:e 0 r 2 0', 'imp:h 0 0 0 0'], [2]),
+    ('crossing-zero-patterns', [(1, ''), (2, ''), (3, ''), (4, ''), (5, ''), (6, '')],
+     ['imp:n 1 0 1 1 0 0', 'imp:p 1 1 0 1 0 0'], [5, 6]),
     ('interpolate-down-to-zero', [(1, ''), (2, ''), (3, ''), (4, '')],
      ['imp:n 2 1i 0 1'], [3]),
     ('interpolate-up-from-zero', [(1, ''), (2, ''), (3, ''), (4, ''), (5, '')],
@@ -778,6 +786,13 @@ CORPUS = [
     ('like-chain-lowered-then-inherited',
      [(1, 'imp:n=2'), (2, ('like', 1), 'imp:n=0'), (3, ('like', 2), 'vol=1'),
       (4, ('like', 3), 'imp:n=4')], [], [2, 3]),
+    ('like-chain-raised-then-inherited',
+     [(1, 'imp:n=0'), (2, ('like', 1), 'imp:n=3'), (3, ('like', 2), 'vol=1'),
+      (4, ('like', 3), 'tmp=1e-8'), (5, 'imp:n=1')], [], [1]),
+    ('like-chain-two-particles',
+     [(1, 'imp:n=1 imp:p=1'), (2, ('like', 1), 'imp:p=0'),
+      (3, ('like', 2), 'imp:n=0'), (4, ('like', 3), 'vol=2'),
+      (5, ('like', 2), 'imp:n,p=0')], [], [3, 4, 5]),
     ('nonu-is-not-u', [(1, 'imp:n=1 nonu=1'), (2, 'imp:n=0'),
                        (3, 'unc:n=1 imp:n=1'), (4, 'imp:n=0 nonu=2')],
      [], [2, 4]),
@@ -879,6 +894,23 @@ def exhaustive_decks(res, quick):
                 check_zero_deck(res, f'exhaustive {kind} n={"".join(imp_n)} '
                                 f'p={"".join(imp_p)}', cells, cards, zero, extra,
                                 parse=False)
+
+
+def exhaustive_cards(res):
+    '''EXHAUSTIVE: one probed cell between two live ones, importances on three
+    and on four IMP data cards, every 0/1 pattern for the probed cell: it is
+    left out iff every card gives 0, whatever the position of the card.'''
+    import itertools
+    names = ['imp:n', 'imp:p', 'imp:e', 'imp:h']
+    for n_cards in (3, 4):
+        for bits in itertools.product('01', repeat=n_cards):
+            cards = [f'{names[k]} 1 {bits[k]} 1' for k in range(n_cards)]
+            zero = [2] if set(bits) == {'0'} else []
+            res.seen(('exhaustive', 'cards', bits), nontrivial=True)
+            res.count('exhaustive:cards')
+            check_zero_deck(res, f'exhaustive cards {"".join(bits)}',
+                            [(1, ''), (2, ''), (3, '')], cards, zero, {},
+                            parse=False)
 
 
 EXHAUSTIVE_TOKENS = ['0', '1', 'r', '2r', 'i', '2I', '0m', '2M', 'j', '1log']
@@ -1104,31 +1136,49 @@ def run(res, tier, seed, proofs_ok):
                 'conversions of level-0 decks incl. keywords containing "u"; '
                 'non-trivial = >= 2 tokens / cells, for (c) a deck with both '
                 'zero and non-zero cells')
-    import c12_cov
+    import contextlib
     import time
     marks = [('start', time.time())]
 
     def mark(name):
         marks.append((name, time.time()))
-    cov = c12_cov.LineCov(c12_cov.anchored_functions())
-    with cov:
+    # line coverage is information only: it must never stop or fail the check
+    cov, cov_missing = None, []
+    try:
+        import c12_cov
+        funcs, cov_missing = c12_cov.anchored_functions()
+        cov = c12_cov.LineCov(funcs)
+    except Exception as exc:      # pylint: disable=broad-except
+        res.extra['line_coverage_error'] = repr(exc)[:200]
+    with (cov if cov is not None else contextlib.nullcontext()):
         corpus(res)
         all_zero_deck(res)
         mark('corpus')
         exhaustive_decks(res, quick)
+        exhaustive_cards(res)
         mark('exhaustive decks')
         expand_ties(res, rng, 240 if quick else 3000, 160 if quick else 2000,
                     2 if quick else 3)
         mark('tie:expand')
         parse_ties(res, rng, 160 if quick else 2000, 100 if quick else 1000)
         mark('tie:parse')
-    coverage_obligation(res, cov)
+    try:
+        if cov is not None:
+            coverage_obligation(res, cov)
+        if cov_missing:
+            res.extra['line_coverage_skipped'] = [
+                f'skipped: helper {name} not present' for name in cov_missing]
+    except Exception as exc:      # pylint: disable=broad-except
+        res.extra['line_coverage_error'] = repr(exc)[:200]
     lattice_sweep(res, 30 if quick else 150, rng)
     mark('lattice sweep')
     conversion_sweep(res, rng, 160 if quick else 1800, 32 if quick else 200)
     mark('conversion sweep + tie:conv + tie:fill')
     res.extra['section_seconds'] = {
         name: round(t - marks[k][1], 1) for k, (name, t) in enumerate(marks[1:])}
+    if g.SKIPPED:
+        res.extra['skipped_helpers'] = sorted('skipped: ' + name
+                                              for name in g.SKIPPED)
 
 
 def coverage_obligation(res, cov):
